@@ -356,7 +356,6 @@ class World:
     def _body(self, ac, steps):
         TL.actor = ac
         a = self.shm.a
-        a[ac.b + POS] = 0
         try:
             for st in steps:
                 sleep_until(ac.t0 + st.get('at', 0.0))
@@ -625,6 +624,12 @@ class Session:
         """actors: {aid: params}; returns merged {aid: log}, stuck list"""
         t0 = time.monotonic() + lead
         per = {}
+        a = self.world.shm.a          # quiescent here: start-of-round cell state
+        for aid in range(self.world.nact):
+            bb = base(aid)
+            a[bb + PH] = 0
+            a[bb + POS] = 0
+            a[bb + INWAIT] = 0
         for aid, p in actors.items():
             per.setdefault(self.proc_of[aid], {})[str(aid)] = p
         for pidx, acts in per.items():
